@@ -84,6 +84,11 @@ impl StackVerifier {
             data,
         }
     }
+    #[cfg(all(rbpf_verif, feature = "std"))]
+    pub(crate) fn has_calculator(&self) -> bool {
+        self.calculator.is_some()
+    }
+
     /// Validate the stack usage of a program
     ///
     /// This function checks the stack usage of a program and returns a `StackUsage` object
@@ -127,6 +132,12 @@ impl StackVerifier {
 pub struct StackUsage(HashMap<usize, StackUsageType>);
 
 impl StackUsage {
+    /// (function entry, frame size) pairs, for the verification recorder
+    #[cfg(all(rbpf_verif, feature = "std"))]
+    pub(crate) fn entries(&self) -> impl Iterator<Item = (usize, u16)> + '_ {
+        self.0.iter().map(|(pc, ty)| (*pc, ty.stack_usage()))
+    }
+
     /// Get the stack usage for a local function
     pub fn stack_usage_for_local_func(&self, pc: usize) -> Option<StackUsageType> {
         self.0.get(&pc).cloned()
